@@ -412,25 +412,8 @@ func (m *Model) checkBlockStmt(s *Sink, rule string) {
 		return
 	}
 	fk := fnKey(fn)
-	loops := naturalLoops(fn)
-	if len(loops) != 1 {
-		s.Undecided(rule, fk+"|loop", m.Pos(fn.Pos()), "expected one loop")
-		return
-	}
-	li := loops[0]
-	ctx := m.Ctx(fn)
-	var app ssa.Instruction
-	for b := range li.body {
-		for _, in := range b.Instrs {
-			if c, ok := in.(*ssa.Call); ok {
-				if bi, ok := c.Call.Value.(*ssa.Builtin); ok && bi.Name() == "append" {
-					app = in
-				}
-			}
-		}
-	}
-	_ = ctx
-	_ = app
+	// (where the loop over the statements lives — here, in a helper, in a generic driver with a callback — does not
+	// matter: the cases below follow the calls)
 	// decided by evaluating evalBlockStmt on blocks of three statements whose results are given: a plain value, then a
 	// carrier of a control marker (the marker itself, or a block / nested block containing it), then another value.
 	// Expected: the third statement is not evaluated, and the result holds the first two results in order.
